@@ -17,11 +17,11 @@ Cfgs ==
   CASE CfgSet = "one"   -> {[kinds |-> <<"direct">>, limit |-> l, size |-> 8, pay |-> "scalar", static |-> FALSE] : l \in {None, 0, 8, 20}}
     [] CfgSet = "two"   -> {[kinds |-> ks, limit |-> l, size |-> 8, pay |-> "scalar", static |-> FALSE] :
                               ks \in {<<"direct", "direct">>, <<"direct", "pass">>, <<"direct", "buffer">>,
-                                      <<"buffer", "pass">>},
+                                      <<"buffer", "pass">>, <<"pass", "shared">>},
                               l \in {None, 0, 7, 8, 16}}
     [] CfgSet = "three" -> {[kinds |-> ks, limit |-> l, size |-> 8, pay |-> "scalar", static |-> FALSE] :
                               ks \in {<<"direct", "pass", "direct">>, <<"direct", "buffer", "pass">>,
-                                      <<"buffer", "buffer", "direct">>},
+                                      <<"buffer", "buffer", "direct">>, <<"pass", "shared", "direct">>, <<"pass", "shared", "shared">>},
                               l \in {None, 15}}
     [] CfgSet = "masked" -> {[kinds |-> ks, limit |-> l, size |-> 16, pay |-> "masked", static |-> FALSE] :
                               ks \in {<<"direct">>, <<"direct", "pass">>, <<"direct", "buffer">>},
